@@ -249,6 +249,9 @@ impl MuxStream {
         if self.finish_sent.swap(true, Ordering::AcqRel) {
             return Some(());
         }
+        // A writer may be waiting for credit on this stream (`poll_write_push` takes
+        // `&self`): it has to see the closed flag now, nothing else will wake it.
+        self.writer_waker.wake();
         self.tx_msg_tx
             .send(Frame::new_finish(self.flow_id).into())
             .ok()?;
